@@ -1,6 +1,6 @@
 package asn
 
-//gosx:file init=github.com/free5gc/chf/cdr/asn
+//gosx:file init=github.com/free5gc/chf/cdr/asn,github.com/free5gc/chf/zzref
 
 import (
 	"reflect"
